@@ -306,6 +306,31 @@ func solveOne(vc *VC, o *Obligation, idx int, opts SolveOpts) *Result {
 			return r
 		}
 	}
+	// stage C: a reachability (cover) query over a disjunction of path conditions is answered by any one disjunct
+	// that is satisfiable on its own (a model of `pc && case` is a model of `pc`).
+	if o.Cover && len(o.Splits) > 1 && len(o.Splits) <= 64 {
+		tot := 0.0
+		for k, sp := range o.Splits {
+			if k >= 6 {
+				break // a few cases are enough for a reachability witness; the general query follows
+			}
+			o2 := *o
+			o2.PC = And(o.PC, sp)
+			o2.Splits = nil
+			sfile := filepath.Join(opts.Dir, fmt.Sprintf("o%05d.case%d.smt2", idx, k))
+			if err := os.WriteFile(sfile, []byte(vc.Script(&o2, false)), 0o644); err != nil {
+				break
+			}
+			raw, out, dt := runSolver(Solvers[0], 2, sfile)
+			tot += dt
+			if raw == "sat" {
+				r.Raw, r.Solver, r.Output, r.TimeS, r.Status = raw, fmt.Sprintf("%s(case %d/%d)", Solvers[0].Name, k+1, len(o.Splits)), out, tot, "cover-ok"
+				r.PerSolver[Solvers[0].Name] = raw
+				return r
+			}
+		}
+		r.TimeS += tot
+	}
 	// stage 0: cone-of-influence slice (fewer assumptions: an `unsat` there is an `unsat` of the full script)
 	if !o.Cover && o.NFact > 40 {
 		sfile := filepath.Join(opts.Dir, fmt.Sprintf("o%05d.sliced.smt2", idx))
